@@ -5,7 +5,7 @@ PROPS["C28"] = {
         {"cmd": "c28.grammar", "quick": 150, "thorough": 1500},
     ],
     "nontrivial": lambda c: len(c["input"]) > 12,
-    "rule": "c28.exhaustive: every ID-syntax name up to length k over {a,B,z,_,Z,-,0,9} and every quoted body of <= 2 atoms over 17 atoms; c28.names: random IDs, quoted ids (escapes, Latin-1, astral, invalid UTF-8) and raw byte strings; all four styles per name; c28.grammar: grammars declaring two near-colliding terminals/nonterminals through compiler.Compile",
+    "rule": "c28.exhaustive: every ID-syntax name up to length k over {a,B,z,_,Z,-,0,9} and every quoted body of <= 2 atoms over 17 atoms; c28.names: random IDs, quoted ids (escapes, Latin-1, astral, invalid UTF-8) and raw byte strings; all four styles per name; c28.grammar: grammars declaring two near-colliding terminals/nonterminals through compiler.Compile; c28.grammar also declares terminals with an explicit ID clause, name (ID), as the first, the second or both of the two terminals: the clause replaces the derived identifier in the collision check",
     "modelled": "util/ident/id.go Produce (UTF-8 range loop, charName, hex fallback, all four styles) step by step; IsValid restricted to ASCII output; the ID bookkeeping of compiler/resolver.go (ids map + error on reuse)",
     "partial": "the statement 'every admitted name gets a non-empty identifier' is false on the pinned code for `_`-only names (non-UpperCase styles) and `''`: known findings, proved as C28_nonempty_refuted",
     "level_text": "Universal Coq theorems about the step-by-step model of ident.Produce: for every byte string and each of the four styles the result is ASCII [A-Za-z0-9_] not starting with a digit (valid whenever non-empty); every quoted name and every name with an ASCII letter/digit gives a non-empty identifier; the unrestricted non-emptiness claim is refuted in Coq by `_` and `''` (two known findings); the resolver keeps IDs unique unless it reports an error. The model is compared byte for byte with ident.Produce on exhaustive short names and random long ones (Latin-1, astral, invalid UTF-8), and the collision report is compared through compiler.Compile.",
